@@ -133,6 +133,15 @@ def _call(ctx, fn, arg, probe, where, prop, **kw):
     return np.asarray(res, dtype=float)
 
 
+def _param_magnitude(model):
+    """Magnitude of the fitted loc/scale: (x - loc) / scale is computed at THAT floating-point resolution
+    (a diverged scipy MLE can return loc = -3e14, scale = 3e14 for data around 5)."""
+    inner = getattr(model, '_instance', None) or model
+    p = getattr(inner, '_params', None) or {}
+    vals = [abs(float(p[k])) for k in ('loc', 'scale') if k in p and np.isfinite(p[k])]
+    return max(vals) if vals else 0.0
+
+
 def _kde_truncated_mass(model):
     """Kernel mass below min - 5 std of a fitted GaussianKDE, from the definition (None otherwise)."""
     inner = getattr(model, '_instance', None) or model
@@ -248,7 +257,7 @@ def laws(ctx, model, data, where, prop='C03', full=True):
         xi, qi = X[inner], qg[inner]
         # a few ulps at the magnitude at which the model standardises x: (x - loc) / scale loses
         # the ulps of x when |loc| or the data range exceed |x|
-        step = 8 * np.spacing(np.maximum(np.abs(xi), max(abs(lo), abs(hi), span))) + 1e-300
+        step = 8 * np.spacing(np.maximum(np.abs(xi), max(abs(lo), abs(hi), span, _param_magnitude(model)))) + 1e-300
         if method == 'bisect':
             step = step + 1e-8          # bisect's documented absolute tolerance in x (C18)
         Fl = _call(ctx, model.cumulative_distribution, xi - step, 'cdf', w2, prop)
